@@ -7,8 +7,9 @@ CONSTANTS
   Strips = {FALSE, TRUE}
   Shifts = {0, 1}
   Mods = {"all", "first"}
-  Probs = {"P1", "P2", "P3", "P4"}
+  Probs = {"P1", "P2", "P3", "P4", "P5", "P6"}
   Pads = {0, 35}
   Padfs = {0, 35}
+  Showdups = {FALSE, TRUE}
 INVARIANTS EmitCase
 CHECK_DEADLOCK FALSE
